@@ -2,7 +2,9 @@
    Only statements closed by [exact <lemma>] and their assumptions.                    *)
 From Coq Require Import ZArith Reals List.
 From FF Require Import Base.Ops Inst.RInst Base.RAlg Base.FMat Model.Numeric Model.Decay Model.Cumulant
-     Model.Tie.C08 Proofs.Trapz Proofs.Decay Proofs.TraceId Proofs.PauliEx.
+     Model.Tie.C08 Proofs.Trapz Proofs.Decay Proofs.TraceId Proofs.PauliEx Proofs.InfidPos.
+(* the correspondence check's observables and constants are part of the cone rebuilt by ./check *)
+From FF Require Model.Consts Inst.Param Corr.Agree Corr.Obs Corr.ObsC08.
 Import ListNotations.
 Local Open Scope R_scope.
 
@@ -99,6 +101,39 @@ Theorem C08_traceless_branch_refuted :
     - sumn' n (fun m => cumulant_general_fn RO n Tr false G G m m) / (INR d * INR d).
 Proof. exact traceless_branch_refuted. Qed.
 Print Assumptions C08_traceless_branch_refuted.
+
+
+(* pc_infid_sum: the pulse-correlation infidelities sum to the (traceless-branch) total of the summed control matrix *)
+Theorem C08_pc_infid_sum : forall d na nk no (Bpc : list A3r) idx (sp : spectrumR) omega i j,
+  idx_ok na idx -> length omega = no ->
+  (i < length idx)%nat -> (j < length idx)%nat -> (is_cross sp = false -> i = j) ->
+  sumn' (length Bpc) (fun g => sumn' (length Bpc) (fun h =>
+     nth (lead_pos sp (length idx) i j) (nth h (nth g (infidelity_pc RO d na nk no Bpc idx sp omega) []) []) 0)) =
+  nth (lead_pos sp (length idx) i j)
+      (infid_of_ff RO d (infid_ff_traceless RO na nk no (cm_pc_sum RO na nk no Bpc)) idx sp no omega) 0.
+Proof. exact pc_infid_sum. Qed.
+Print Assumptions C08_pc_infid_sum.
+
+(* infid_nonneg: positive-semidefinite spectrum, non-decreasing grid => total infidelity >= 0, both branches *)
+Theorem C08_infid_nonneg_traceless : forall d na nk no (Bm : A3r) idx (sp : spectrumR) omega,
+  (0 < d)%nat -> idx_ok na idx -> length omega = no -> grid_nondecreasing no omega ->
+  spectrum_psd sp (leads sp (length idx)) no ->
+  forall basis : list MatR, 0 <= sumlist RO (infidelity_total RO d true na nk no Bm basis idx sp omega).
+Proof. exact infid_nonneg_traceless. Qed.
+Print Assumptions C08_infid_nonneg_traceless.
+
+Theorem C08_infid_nonneg_general : forall d na nk no (Bm : A3r) idx (sp : spectrumR) omega,
+  (0 < d)%nat -> idx_ok na idx -> length omega = no -> grid_nondecreasing no omega ->
+  spectrum_psd sp (leads sp (length idx)) no ->
+  forall basis : list MatR, nk = length basis ->
+  let n := length basis in let Cb := fun k => toF (nthm basis k) in
+  basis_herm d n Cb -> basis_orthonormal d n Cb -> basis_complete d n Cb ->
+  0 <= sumlist RO (infidelity_total RO d false na nk no Bm basis idx sp omega).
+Proof. exact infid_nonneg_general. Qed.
+Print Assumptions C08_infid_nonneg_general.
+
+Example C08_psd_hypotheses_satisfiable : spectrum_psd spw_ex (leads spw_ex 1) 2 /\ grid_nondecreasing 2 [0; 1].
+Proof. exact psd_example. Qed.
 
 (* the hypotheses on the basis are satisfiable: normalised Pauli basis, d = 2 *)
 Example C08_pauli_is_complete_onb :
